@@ -122,6 +122,9 @@ def wrapper(repo, res):
     # warn iff None
     warn_if = [n for n in ast.walk(f.node) if isinstance(n, ast.If) and nf(n.test) == nf_text('segm is None')]
     ok = len(warn_if) == 1 and any('NoDetectionsWarning' in unparse(s, 0) for s in warn_if[0].body)
+    # ... and that is the only way to return None
+    rn = [r for r in ast.walk(f.node) if isinstance(r, ast.Return) and (r.value is None or (isinstance(r.value, ast.Constant) and r.value.value is None))]
+    ok = ok and len(rn) <= 1 and all(any(r is x for b in warn_if[0].body for x in ast.walk(b)) for r in rn)
     res.oblige('D2', 'NoDetectionsWarning iff the result is None', ok, nontrivial=True)
     if not ok:
         res.add(Finding('D2', f.fullname, 'no-detection warning', f.loc, 'detect_sources must warn exactly when it returns None', {}))
@@ -185,4 +188,6 @@ def run(repo, tier):
     from .common import run_label_eq
     run_label_eq(repo, res, {'photutils.segmentation.core', 'photutils.segmentation.catalog'})
     res.floor('LABEL-EQ', 3)
+    from .common import run_cast_to_data_dtype
+    run_cast_to_data_dtype(repo, res, {'photutils.segmentation.detect', 'photutils.segmentation.finder'})
     return res
